@@ -26,6 +26,7 @@ type AckStep struct {
 	C     int    `json:"c"`
 	K     string `json:"k"`
 	Codes []int  `json:"codes,omitempty"` // SUBACK return codes; nil: the requested QoS of caller C
+	NB    bool   `json:"nb,omitempty"`    // no barrier after this step: the next acknowledgement follows back to back
 }
 
 // AckScenario is calls + broker script.
@@ -200,6 +201,9 @@ func runAcks(sc *AckScenario) *AckResult {
 				raw = netsim.Ack(ackFirst[st.K], id)
 			}
 			w.Send(t, raw)
+			if st.NB {
+				continue
+			}
 			// barrier: the reader has dispatched the acknowledgement once the PINGRESP is back
 			pctx, pcancel := context.WithTimeout(ctx, 2*time.Second)
 			if err := cli.Ping(pctx); err != nil {
